@@ -41,7 +41,12 @@ pub fn answer(db: &anything::Db, q: &str) -> String {
         Some(d) => format!(
             "{} <= {}",
             d.results.iter().map(|r| r.short()).collect::<Vec<_>>().join("; "),
-            d.descriptions.iter().map(|(_, c)| format!("{:?}", c.tokens)).collect::<Vec<_>>().join("; ")
+            // the constant that answered and what its source resolves to in this session
+            d.descriptions
+                .iter()
+                .map(|(_, c)| format!("{:?} source {:?} -> {:?}", c.tokens, c.source, c.source.map(|id| db.get_source(id).map(|s| (s.id, s.description.to_string())))))
+                .collect::<Vec<_>>()
+                .join("; ")
         ),
     }
 }
